@@ -138,3 +138,37 @@ def run(cx):
         # nothing else decides: every path to a false return crosses the negation of one of the three conjuncts
         cx.must_pass('C10.G3', r1, [x for x in cx.false_returns(r1) if not re.fullmatch(NEGS, ' '.join(x.extra))], via_edge=r'^!eq:RecordType\(RecordType::NS,Record::record_type\(arg2\)\)$|^eq:RecordType\(RecordType::(NS|ANY),LowerQuery::query_type\(\^+arg6\)\)$',
                      what='referral-test-has-exactly-the-three-conjuncts')
+
+    # ---------------------------------------------------------------- G5 which NSEC3 record "covers" a hashed name (RFC 5155 7.2.x)
+    # every NSEC3 denial the server sends (NXDOMAIN next-closer and wildcard, wildcard answer / NODATA, opt-out DS) takes its covering
+    # record from InnerInMemory::find_cover: the record with the GREATEST owner hash below the hashed name, and - when the hash sorts
+    # before the whole chain - the record with the greatest owner hash of all (the only one whose interval wraps around).
+    fc = cx.fn('C10.G5', 'hickory_server::store::in_memory::inner::InnerInMemory::find_cover')
+    if fc:
+        P = 'hickory_server::store::in_memory::inner::InnerInMemory::find_cover::'
+        GREATEST = r'(Iterator::max_by_key\((?P<it>.*),closure:(?P<key>InnerInMemory::find_cover::[^()]*)\)|Iterator::last\((?P<it2>.*)\)|DoubleEndedIterator::next_back\((?P<it3>.*)\))'
+
+        def closure_ret(name):
+            g = cx.prog.fn('hickory_server::store::in_memory::inner::' + name)
+            r_ = cx.returns(g, r'.') if g else []
+            return r_[0].term if len(r_) == 1 else None
+        oks = cx.returns(fc, r'^Result::Ok\(')
+        cx.check('C10.G5', len(oks) == 1, fc.path, 'ret', 'single-selection-expression', str(len(oks)))
+        for s in oks:
+            m = re.match(r'^Result::Ok\((?:Option::cloned\()?Option::or_else\(' + GREATEST + r',closure:(?P<fb>InnerInMemory::find_cover::\{closure@or_else#\d+\})\)\)?\)$', s.term)
+            cx.check('C10.G5', bool(m), fc.path, 'ret', 'cover=greatest-below-else-fallback', s.term[:300], s.loc)
+            if not m:
+                continue
+            it = m.group('it') or m.group('it2') or m.group('it3')
+            if m.group('key'):
+                cx.check('C10.G5', closure_ret(m.group('key')) == 'RecordSet::name(arg2)', fc.path, 'ret', 'greatest-by-owner-name', str(closure_ret(m.group('key'))))
+            preds = [closure_ret(c_) for c_ in re.findall(r'closure:(InnerInMemory::find_cover::\{closure@(?:filter|take_while)#\d+\})', it)]
+            cx.check('C10.G5', any(p_ and re.match(r'^lt:Name\(RecordSet::name\(arg2\),try\(Nsec3QueryInfo::hashed_owner_name\(\^arg4,\^arg2,\^arg3\)\)@Continue\.0\)$', p_) for p_ in preds),
+                     fc.path, 'ret', 'candidates=owner-hash-below-the-hashed-name', '; '.join(map(str, preds)))
+            cx.check('C10.G5', any(p_ == 'eq:RecordType(RecordType::NSEC3,RecordSet::record_type(arg2))' for p_ in preds), fc.path, 'ret', 'candidates=NSEC3-rrsets', '; '.join(map(str, preds)))
+            fb = closure_ret(m.group('fb')) or ''
+            m2 = re.match('^' + GREATEST.replace('?P<it>', '?P<jt>').replace('?P<it2>', '?P<jt2>').replace('?P<it3>', '?P<jt3>').replace('?P<key>', '?P<key2>') + '$', fb)
+            cx.check('C10.G5', bool(m2), P + '{closure@or_else#0}', 'ret', 'wrap-around-fallback=record-with-the-greatest-owner-hash', fb[:200],
+                     sample={'fn': 'find_cover', 'fallback': fb[:120], 'holds': bool(m2)})
+            if m2 and m2.group('key2'):
+                cx.check('C10.G5', closure_ret(m2.group('key2')) == 'RecordSet::name(arg2)', P + '{closure@or_else#0}', 'ret', 'fallback-greatest-by-owner-name', str(closure_ret(m2.group('key2'))))
